@@ -394,12 +394,49 @@ def plan(tier):
     units = [(f"enum-{o}-{m or 'init'}", {"key": [o, m]}) for o, m in keys]
     n = 150 if tier == "quick" else 2500
     units += [(f"random-{i}", {"n": n}) for i in range(8)]
+    units.append(("exprcalls", {}))
     return units
+
+
+EXPR_HEAD = "from Reduino.Communication import SerialMonitor\nfrom Reduino.Utils import sleep\ndev = SerialMonitor(9600)\n"
+EXPR_CONTEXTS = ["x = {c}\ndev.write(x)", "dev.write({c})", "if {c} == 'go':\n    sleep(1)", "while True:\n    y = {c}\n    dev.write(y)", "def rd():\n    return {c}\nz = rd()\ndev.write(z)"]
+
+
+def run_exprcalls(r):
+    """methods that are called inside expressions (no IR node of their own): the positional and the keyword spelling of one binding must be
+    translated alike (or both refused)"""
+    from Reduino.transpile.emitter import emit
+    from Reduino.transpile.parser import parse
+
+    def out(script):
+        try:
+            return emit(parse(script))
+        except ValueError as e:
+            return "ValueError"
+
+    for val in ("'host'", "'mcu'", "'both'", "\"host\""):
+        for ctx in EXPR_CONTEXTS:
+            a = EXPR_HEAD + ctx.format(c=f"dev.read({val})") + "\n"
+            for spelled in (f"dev.read(emit={val})", f"dev.read(emit = {val})", f"dev.read( emit={val} )"):
+                b = EXPR_HEAD + ctx.format(c=spelled) + "\n"
+                ta, tb = out(a), out(b)
+                case = {"a": {"script": a, "owner": "SerialMonitor", "method": "read"}, "b": {"script": b, "owner": "SerialMonitor", "method": "read"}}
+                r.evaluations += 1
+                r.nontrivial_enum += 1
+                if len(r.samples) < 1:
+                    r.samples.append(case)
+                if ta != tb:
+                    r.failures.append({"bucket": "shapes-disagree:SerialMonitor.read", "case": case, "expected": "byte-identical C++", "observed": _first_diff(ta, tb) if "ValueError" not in (ta, tb) else f"{ta[:20]!r} vs {tb[:20]!r}"})
+                    return
+    r.exhaustive = True
 
 
 def run_shard(name, seed, tier, **kw):
     classes = _classes()
     r = Result()
+    if name == "exprcalls":
+        run_exprcalls(r)
+        return r
     if name.startswith("enum"):
         key = tuple(kw["key"])
         sig, _ = signature_of(classes, *key)
